@@ -139,6 +139,10 @@ impl Analysis {
         }
     }
 
+    pub fn remove_definition(&mut self, ty: &DefinitionType) {
+        self.definitions.remove(ty);
+    }
+
     /// Adds multiple symbol usages, for every part of the path
     /// For example, when adding a usage for 'foo.bar' it will add usages for 'foo' and for 'bar'.
     pub fn add_symbol_usage(
